@@ -40,6 +40,14 @@ func hostilize(t *rapid.T, n run.Node, p int) run.Node {
 	}
 	switch n.T {
 	case "array", "object":
+		if rapid.IntRange(0, 11).Draw(t, "nilcontainer") == 0 {
+			// the typed nil of the same kind: a legal, empty container, exactly
+			// where an array or object is expected
+			if n.T == "array" {
+				return run.Node{T: "nilslice"}
+			}
+			return run.Node{T: "nilmap"}
+		}
 		a := make([]run.Node, len(n.A))
 		for i, e := range n.A {
 			a[i] = hostilize(t, e, p)
